@@ -193,7 +193,9 @@ def rdata(t, rng):
             o = rng.choice([b"a", b"\x00", b"\xff", b"\\", b'"', b"\x07", b".", b"(", b"@"])
             return "one-octet" + ("" if o == b"a" else "-escaped"), b"\x01" + o
         if k == 3:
-            return "tag-only", b"\x02aa"
+            # several character-strings: the first one empty or one octet, the data in the later ones
+            first = rng.choice([b"\x00", b"\x01a", b"\x01\x00"])
+            return "short-first-string", first + bytes([len(payload) + 2]) + b"aa" + payload
         if k == 4:
             return "bad-length", bytes([rng.range(10, 255)]) + b"abc"
         s = b"aa" + payload
